@@ -219,6 +219,13 @@ fn concurrent(w: &World, dbs: &Arc<Databases>, prog: &Program, out: &mut Outcome
         admin.exec(&format!("set {} i0", k));
         admin.exec(&format!("set {} i1", k));
     }
+    // an observer hears the version every stored write was given
+    let mut obs = Session::admin(dbs);
+    select(&mut obs, &prog.db);
+    for k in KEYS.iter() {
+        obs.exec(&format!("watch {}", k));
+    }
+    obs.drain();
     let seq = StdArc::new(AtomicU64::new(1));
     let recs: StdArc<StdMutex<Vec<Rec>>> = StdArc::new(StdMutex::new(Vec::new()));
     let mut hs = Vec::new();
@@ -243,6 +250,31 @@ fn concurrent(w: &World, dbs: &Arc<Databases>, prog: &Program, out: &mut Outcome
     }
     let recs = recs.lock().unwrap().clone();
     out.writes += recs.len() as u64;
+    // the stored version only grows: the key never ends below a version that was announced for it
+    let notes = obs.drain();
+    for key in KEYS.iter() {
+        let announced: Vec<i32> = notes
+            .iter()
+            .filter_map(|n| n.trim_end().strip_prefix("changed-version ").map(|r| r.to_string()))
+            .filter_map(|r| {
+                let mut it = r.splitn(3, ' ');
+                if it.next() == Some(*key) {
+                    it.next().and_then(|v| v.parse::<i32>().ok())
+                } else {
+                    None
+                }
+            })
+            .collect();
+        if let (Some(maxv), Some((fver, fval))) = (announced.iter().max(), parse_value_version(&admin.exec(&format!("get-safe {}", key)).msgs)) {
+            if fver < *maxv {
+                out.violations.push(Violation::new(
+                    "version-decreased",
+                    "concurrent".to_string(),
+                    format!("key {}: versions announced to a watcher {:?}, the key ends at version {} ({:?})", key, announced, fver, fval),
+                ));
+            }
+        }
+    }
     for key in KEYS.iter() {
         let rs: Vec<&Rec> = recs
             .iter()
